@@ -272,6 +272,25 @@ def run_tree(case, ctx):
         Q[:, 0] = 2008 + rng.randint(0, 12, 20)
     pq = m.predict(Q)
     lq = m.apply(Q)
+    # the same rows given in other containers / dtypes are predicted alike (integer-valued rows as int64,
+    # float32-representable rows as float32, Fortran order, read-only)
+    Qi = numpy.round(Q * 3)
+    Q32 = Q.astype(numpy.float32)
+    ro = Q.copy()
+    ro.setflags(write=False)
+    for vname, Qa, Qb in (("int64", Qi.astype(numpy.int64), Qi), ("float32", Q32, Q32.astype(numpy.float64)),
+                          ("fortran", numpy.asfortranarray(Q), Q), ("read-only", ro, Q)):
+        try:
+            pa, pb = m.predict(Qa), m.predict(Qb)
+        except Exception as e:
+            ctx.violation(K + "predict-raised/%s/%s" % (vname, type(e).__name__), str(e)[:150], cfg=cfg)
+            continue
+        ctx.hit("tree.query_containers")
+        if not numpy.allclose(pa, pb, rtol=1e-5 if vname == "float32" else 1e-12, atol=1e-6 if vname == "float32"
+                              else 1e-12):
+            ctx.violation(K + "predict-depends-on-container/%s" % vname,
+                          "predict on a %s batch differs from predict on the same values as float64 by %.3g" % (
+                              vname, float(numpy.abs(pa - pb).max())), cfg=cfg)
     scale = 1e-9 * (1 + numpy.abs(y).max())
     for l in leaves:
         rows = leaf == l
